@@ -83,6 +83,12 @@ func c10Opts(name string) *distiller.Options {
 var c10Entries = []string{"apply-doc", "apply-sub", "url", "apply-multiroot"}
 
 func c10Enumerate(tier string, emit func(*eng.Case)) {
+	// documents of the other checks, under the options they were built for: a repeated call on the
+	// document, one on an attached sub-element, and the document again
+	crossEmit(tier, "owned", 1, func(c *eng.Case) {
+		c.P["opts"], c.P["hist"] = "case", "apply-doc,apply-sub,apply-doc"
+		emit(c)
+	})
 	atoms := c10Atoms
 	al := ora.AtomIndex(atoms, c10Alphabet...)
 	maxE, maxH := 1, 3
@@ -184,6 +190,9 @@ func c10Check(c *eng.Case) *eng.Outcome {
 	o := &eng.Outcome{Execs: 0}
 	doc := ora.Parse(c.HTML)
 	opts := c10Opts(c.Get("opts"))
+	if c.Get("opts") == "case" {
+		opts = ora.Opts(c) // cross corpus: the page URL and algorithm the document was built for
+	}
 	sub := ora.Elements(doc, "div")
 	var subEl *html.Node
 	if len(sub) > 0 {
@@ -280,16 +289,17 @@ func init() {
 	eng.Register(&eng.Prop{
 		ID:        "C10",
 		DesignRef: "§5 C10",
-		Rule: "documents = S1 with <= 1 (quick) / <= 2 (thorough) insertions over 21 atoms in which the library rewrites nodes (font, javascript: anchor, noscript image, picture, lazy images (with and without a placeholder src that gets overwritten), embeds, video, tables, attribute-laden elements, relative links, pager, schema.org item); x options {nil, URL, URL+PageNumber, all log flags, URL with userinfo/escaped path + SkipPagination, non-nil options without URL (plain and with flags), URLs with trailing slash, escaped path and fragment under each pagination algorithm, URLs without a path} x every history of <= 3 calls over entry points {Apply(document), Apply(attached sub-element), ApplyForURL via an in-process RoundTripper, Apply(document node with several element children)} reusing one tree and one *Options. " +
+		Rule: "documents = S1 with <= 1 (quick) / <= 2 (thorough) insertions over 21 atoms in which the library rewrites nodes (font, javascript: anchor, noscript image, picture, lazy images (with and without a placeholder src that gets overwritten), embeds, video, tables, attribute-laden elements, relative links, pager, schema.org item); x options {nil, URL, URL+PageNumber, all log flags, URL with userinfo/escaped path + SkipPagination, non-nil options without URL (plain and with flags), URLs with trailing slash, escaped path and fragment under each pagination algorithm, URLs without a path} x every history of <= 3 calls over entry points {Apply(document), Apply(attached sub-element), ApplyForURL via an in-process RoundTripper, Apply(document node with several element children)} reusing one tree and one *Options." + crossRule + " (there: history Apply(document), Apply(sub-element), Apply(document) under the page URL and algorithm of the source check) " +
 			"Oracle after every call: structural snapshot of the whole tree (types, names, atoms, attributes, parent/child/sibling links) unchanged; no hooked write (field assignment or DOM mutator) touched a caller-owned node; Options and *OriginalURL unchanged (including the pointer); repeated calls give the same result; ApplyForURL reports the fetched address. Non-trivial = history of >= 2 calls or non-nil options.",
 		Enumerate: c10Enumerate,
 		Check:     c10Check,
+		Prepare:   func(tier string) { CrossCorpus(tier) },
 		Bounds: func(tier string) map[string]any {
 			e := 1
 			if tier == "thorough" {
 				e = 2
 			}
-			return map[string]any{"max_edits": e, "atoms": len(c10Alphabet), "options": len(c10OptNames), "max_history": 3, "entry_points": c10Entries}
+			return map[string]any{"max_edits": e, "atoms": len(c10Alphabet), "options": len(c10OptNames), "max_history": 3, "entry_points": c10Entries, "cross": crossBounds(tier)}
 		},
 		Assumptions: []string{"writes through aliases of node fields are seen by the snapshot comparison only; ApplyForURL is driven through a stub RoundTripper"},
 	})
